@@ -200,8 +200,100 @@ pub fn case_sequence(c: &mut Choices, log: &mut CaseLog) -> CaseResult {
     Ok(())
 }
 
+/// The typed writer configured (through its builder) with a schema of its own: the header carries
+/// the fingerprint of THAT schema, a reader of that schema reads the message back, a reader of the
+/// type's derived schema refuses it.
+fn specific_with_schema<T: crate::corpus::Corpus>(name: &str, c: &mut Choices, log: &mut CaseLog) -> CaseResult {
+    use apache_avro::{Schema, SpecificSingleObjectWriter};
+    let derived = T::get_schema();
+    let text = serde_json::to_string(&derived).map_err(|e| Fail::new("HARNESS/derived-json", format!("{e}")))?;
+    let mut js = json::parse_strict(&text).map_err(|e| Fail::new("HARNESS/derived-json", format!("{e:?}")))?;
+    // same shape under another name: another fingerprint
+    let alt_name = ["AltName", "verif.alt.Other", "Z"][c.pick(3)];
+    if let Js::Obj(items) = &mut js {
+        items.retain(|(k, _)| k != "namespace");
+        for (k, v) in items.iter_mut() {
+            if k == "name" {
+                *v = Js::str(alt_name);
+            }
+        }
+    } else {
+        return Ok(());
+    }
+    let alt_text = js.render();
+    let alt = Schema::parse_str(&alt_text).map_err(|e| Fail::new("HARNESS/alt-schema", format!("{e}: {alt_text}")))?;
+    let header = refpcf::single_object_header(&js).map_err(|e| Fail::new("HARNESS/refpcf", e))?;
+    let det = |extra: Vec<(&str, Js)>| {
+        let mut items = vec![("type", Js::str(name)), ("configured_schema", Js::Str(alt_text.clone())), ("derived_schema", Js::Str(text.clone()))];
+        items.extend(extra);
+        Js::obj(items)
+    };
+    let tbs = [None, Some(1usize), Some(64)][c.pick(3)];
+    let writer = SpecificSingleObjectWriter::<T>::builder()
+        .resolved(alt.clone())
+        .map_err(|e| Fail::new(format!("C18/specific/writer-build/{name}"), format!("{e}")).with(det(vec![])))?
+        .maybe_target_block_size(tbs)
+        .build();
+    let reader_alt = GenericSingleObjectReader::builder().schema(alt.clone()).build().map_err(|e| Fail::new("C18/reader-new", format!("{e}")))?;
+    let reader_derived = GenericSingleObjectReader::builder().schema(derived.clone()).build().map_err(|e| Fail::new("C18/reader-new", format!("{e}")))?;
+    let plain = GenericDatumReaderAlias::builder(&alt).build().map_err(|e| Fail::new("C18/reader-new", format!("{e}")))?;
+    let n = 1 + c.pick(3);
+    log.label("specific");
+    log.nontrivial = true;
+    log.hash = fnv(format!("S|{name}|{alt_name}|{tbs:?}|{}", c.consumed()).as_bytes());
+    for _ in 0..n {
+        let v = T::arb(c);
+        let mut msg = vec![];
+        let count = writer.write_ref(&v, &mut msg).map_err(|e| Fail::new(format!("C18/specific/write-error/{name}"), format!("{e}")).with(det(vec![])))?;
+        log.sub_evals += 1;
+        if count != msg.len() {
+            return Err(Fail::new(format!("C18/specific/byte-count/{name}"), format!("write_ref returned {count}, emitted {}", msg.len())).with(det(vec![("message", bytes_js(&msg))])));
+        }
+        if msg.len() < 10 || msg[..10] != header[..] {
+            return Err(Fail::new(
+                format!("C18/specific/header-not-of-configured-schema/{name}"),
+                format!("the message starts with {} but C3 01 + CRC-64-AVRO of the writer's schema is {}", json::hex(&msg[..msg.len().min(10)]), json::hex(&header)),
+            )
+            .with(det(vec![("message", bytes_js(&msg))])));
+        }
+        // the datum is the encoding under the configured schema, and a reader of that schema accepts the message
+        let mut body: &[u8] = &msg[10..];
+        let direct = plain.read_value(&mut body).map_err(|e| Fail::new(format!("C18/specific/datum-unreadable/{name}"), format!("{e}")).with(det(vec![("message", bytes_js(&msg))])))?;
+        if !body.is_empty() {
+            return Err(Fail::new(format!("C18/specific/datum-trailing/{name}"), format!("{} bytes after the datum", body.len())).with(det(vec![("message", bytes_js(&msg))])));
+        }
+        let via_reader = reader_alt.read_value(&mut &msg[..]).map_err(|e| Fail::new(format!("C18/specific/own-reader-rejects/{name}"), format!("{e}")).with(det(vec![("message", bytes_js(&msg))])))?;
+        if format!("{via_reader:?}") != format!("{direct:?}") && !matches!(via_reader, apache_avro::types::Value::Map(_)) {
+            // (values with maps print in hash order; their equality is covered by the datum checks of C01/C16)
+            let has_map = format!("{direct:?}").contains("Map(");
+            if !has_map {
+                return Err(Fail::new(format!("C18/specific/reader-differs/{name}"), format!("{} vs {}", short(&via_reader), short(&direct))).with(det(vec![("message", bytes_js(&msg))])));
+            }
+        }
+        if reader_derived.read_value(&mut &msg[..]).is_ok() {
+            return Err(Fail::new(format!("C18/specific/foreign-reader-accepts/{name}"), "a reader of another schema (another fingerprint) accepted the message").with(det(vec![("message", bytes_js(&msg))])));
+        }
+    }
+    Ok(())
+}
+
+use apache_avro::reader::datum::GenericDatumReader as GenericDatumReaderAlias;
+
+pub fn case_specific(c: &mut Choices, log: &mut CaseLog) -> CaseResult {
+    use crate::corpus::*;
+    match c.pick(6) {
+        0 => specific_with_schema::<Inner>("Inner", c, log),
+        1 => specific_with_schema::<Scalars>("Scalars", c, log),
+        2 => specific_with_schema::<Seqs>("Seqs", c, log),
+        3 => specific_with_schema::<Plain>("Plain", c, log),
+        4 => specific_with_schema::<Opts>("Opts", c, log),
+        _ => specific_with_schema::<CharHolder>("CharHolder", c, log),
+    }
+}
+
 pub fn dispatch(campaign: &str, c: &mut Choices, log: &mut CaseLog) -> Option<CaseResult> {
     match campaign {
+        "specific" => Some(case_specific(c, log)),
         "sequence" => Some(case_sequence(c, log)),
         _ => None,
     }
@@ -223,5 +315,6 @@ pub fn run(mut chk: Check) -> ! {
     let n = chk.scale(100_000, 1_000_000);
     chk.campaign(CampaignCfg::new("sequence", n).len(0, 700), case_sequence);
     chk.require_label("sequence:fail_then_success", "sequence:sequence", 5.0);
+    chk.campaign(CampaignCfg::new("specific", n / 5).len(0, 300), case_specific);
     chk.finish()
 }
